@@ -578,6 +578,7 @@ impl<'t, 'd> GGen<'t, 'd> {
                     hi: Some(3),
                     sink: Sink::Vec,
                     cfg: false,
+                    ctxb: 0,
                 };
                 G::Or(b(G::IgnoreThen(b(pre), b(G::Rep(rep)))), b(atom))
             }
@@ -722,7 +723,13 @@ impl<'t, 'd> GGen<'t, 'd> {
             _ => Sink::FoldrWith(b(self.gen(d.min(2), guarded))),
         };
         let cfg = self.cfg.cfg_rep && sep.is_none() && !matches!(sink, Sink::Str) && self.t.chance(1, 4);
-        Rep { item: b(item), sep, leading, trailing, lo, hi, sink, cfg }
+        let ctxb = if self.cfg.ctx && !cfg && sep.is_none() && !matches!(sink, Sink::Str | Sink::Exactly(_)) && self.t.chance(1, 3) { 1 + self.t.pick(3) as u8 } else { 0 };
+        if ctxb == 2 {
+            // at_most(n) from context: keep the static lower bound at 0 so that the interval cannot be empty
+            // (the empty-interval sub-domain is C02's, finding KF-b)
+            lo = 0;
+        }
+        Rep { item: b(item), sep, leading, trailing, lo, hi, sink, cfg, ctxb }
     }
 }
 
